@@ -746,6 +746,18 @@ def _prelude_sync(case, tr, ch, ctl, threads_before):
     return out
 
 
+async def _guarded(loop, coro, limit):
+    """await coro, but not for ever: an operation that waits for something the device-side releases cannot provide (a lock
+    nobody is going to release) is cancelled by the harness after `limit` real seconds and its outcome is that CancelledError —
+    a check that never finishes decides nothing"""
+    tk = loop.create_task(coro)
+    h = loop.call_later(limit, tk.cancel)
+    try:
+        return await tk
+    finally:
+        h.cancel()
+
+
 async def _prelude_async(case, tr, ch, ctl, loop):
     out = []
     for s in case["prelude"]:
@@ -761,11 +773,13 @@ async def _prelude_async(case, tr, ch, ctl, loop):
             while not pctl.stall_entered.is_set() and not task.done():
                 await asyncio.sleep(0)
             task.cancel()
+        hg = loop.call_later(8.0, task.cancel)      # (see _guarded)
         try:
             box["out"] = _canon_ret(await task)
         except BaseException as e:  # noqa
             box["out"] = _canon_exc(e)
         h.cancel()
+        hg.cancel()
         out.append(_prelude_entry(s, pctl, box, p0, tr, ch))
         pctl.release()
         await asyncio.sleep(0)
@@ -835,7 +849,7 @@ def run_case(case):
                 box["hard"] = hard
                 box["t0"] = time.monotonic()
                 try:
-                    box["out"] = _canon_ret(await call())
+                    box["out"] = _canon_ret(await _guarded(loop, call(), W + 4.0))
                 except BaseException as e:  # noqa
                     box["out"] = _canon_exc(e)
                 box["t1"] = time.monotonic()
@@ -874,7 +888,7 @@ def run_case(case):
                 h2 = loop.call_later(1.5, lambda: (released.append(1), ctl.release()))
                 f0 = time.monotonic()
                 try:
-                    fout = _canon_follow_ret(await fcall(ch))
+                    fout = _canon_follow_ret(await _guarded(loop, fcall(ch), 5.0))
                 except BaseException as e:  # noqa
                     fout = _canon_exc(e)
                 f1 = time.monotonic()
